@@ -177,6 +177,93 @@ Section FdFacts.
   Proof. rewrite open_peak_merge. reflexivity. Qed.
 End FdFacts.
 
+(* ------------------------------------------------------------------ *)
+(* write / list coherence over histories: what Objects(prefix) lists is
+   exactly what was written and not withdrawn, under that prefix *)
+
+Lemma b_put_keys {V} n (v : V) b : forall k, In k (map fst (b_put n v b)) <-> k = n \/ In k (map fst b).
+Proof.
+  induction b as [|[k0 v0] b IH]; intro k; cbn [b_put map fst In].
+  - split; [intros [<-|[]]; auto | intros [->|[]]; auto].
+  - bcase n k0.
+    + subst k0. cbn [map fst In]. split; [intros [<-|?]; auto | intros [->|[<-|?]]; auto].
+    + cbn [map fst In]. rewrite IH. split; [intros [?|[?|?]]; auto | intros [?|[?|?]]; auto].
+Qed.
+
+Lemma b_put_nodup {V} n (v : V) b : NoDup (map fst b) -> NoDup (map fst (b_put n v b)).
+Proof.
+  induction b as [|[k0 v0] b IH]; intro H; cbn [b_put map fst].
+  - constructor; [intros [] | constructor].
+  - inversion H as [|? ? Hn Hb]; subst. bcase n k0.
+    + subst k0. cbn [map fst]. constructor; assumption.
+    + cbn [map fst]. constructor; [|apply IH; exact Hb].
+      intro Hin. apply b_put_keys in Hin as [->|Hin]; [congruence | contradiction].
+Qed.
+
+Lemma b_get_in {V} (b : bucket V) : NoDup (map fst b) -> forall n v, In (n, v) b <-> b_get b n = Some v.
+Proof.
+  induction b as [|[k0 v0] b IH]; intros H n v; cbn [b_get In].
+  - split; [intros [] | discriminate].
+  - inversion H as [|? ? Hn Hb]; subst. cbn [fst] in Hn. bcase n k0.
+    + subst k0. split.
+      * intros [E'|Hin]; [injection E' as ->; reflexivity|].
+        exfalso. apply Hn. apply in_map_iff. exists (n, v). split; [reflexivity | exact Hin].
+      * intro E'. injection E' as ->. left. reflexivity.
+    + rewrite <- (IH Hb). split; [intros [E'|?]; [injection E' as -> ->; congruence | assumption] | auto].
+Qed.
+
+Section Coherence.
+  Variable R : Type.
+  Variable enc : R -> bytes.
+  Variable dec : bytes -> option R.
+  Variable proj : R -> report.
+  Variable ord : bucket bytes -> bucket bytes.
+  Hypothesis Hord : forall l, Permutation (ord l) l.
+  Variable pos : list bool.
+  Variable it : iter.
+  Variables lts ltg : bytes -> bytes -> bool.
+  Variable cfg : config.
+
+  Lemma step_upload_nodup st o :
+    NoDup (map fst (ws_upload st)) ->
+    NoDup (map fst (ws_upload (fst (step R enc dec proj ord pos it lts ltg cfg st o)))).
+  Proof.
+    intro H. destruct o as [n d|n|n|k|date|s e]; cbn [step fst ws_upload]; try exact H.
+    - apply b_put_nodup. exact H.
+    - unfold b_del. apply NoDup_map_filter. exact H.
+    - unfold do_merge. destruct (merge R enc dec (day_objects ord pos st date)) as [[file count] ok]. exact H.
+    - unfold do_chart. destruct (handle_chart it lts ltg cfg (read_state_day R dec proj st) s e); exact H.
+  Qed.
+
+  Lemma run_ops_upload_nodup ops : forall st,
+    NoDup (map fst (ws_upload st)) ->
+    NoDup (map fst (ws_upload (fst (run_ops R enc dec proj ord pos it lts ltg cfg st ops)))).
+  Proof.
+    induction ops as [|o ops IH]; intros st H; cbn [run_ops]; [exact H|].
+    pose proof (step_upload_nodup st o H) as H1.
+    destruct (step R enc dec proj ord pos it lts ltg cfg st o) as [st1 r]. cbn [fst] in H1.
+    specialize (IH st1 H1).
+    destruct (run_ops R enc dec proj ord pos it lts ltg cfg st1 ops) as [st2 rs]. exact IH.
+  Qed.
+
+  (* after any history from the empty buckets -- uploads, withdrawals, stray
+     directories, bucket directories moved behind symbolic links, merges,
+     charts -- the listing for a day is exactly the objects currently stored
+     under that prefix, each with its current content *)
+  Theorem listing_is_what_was_written ops date n d :
+    let st := fst (run_ops R enc dec proj ord pos it lts ltg cfg ws_empty ops) in
+    In (n, d) (walk (day_entries ord pos st) date) <->
+    b_get (ws_upload st) n = Some d /\ has_prefix n date = true.
+  Proof.
+    cbv zeta. set (st := fst (run_ops R enc dec proj ord pos it lts ltg cfg ws_empty ops)).
+    assert (Hnd : NoDup (map fst (ws_upload st))) by (apply run_ops_upload_nodup; constructor).
+    unfold day_entries. rewrite walk_weave, filter_In. cbn [fst].
+    rewrite <- (b_get_in _ Hnd). split; intros [H1 H2]; (split; [|exact H2]).
+    - apply (Permutation_in _ (Hord _)). exact H1.
+    - apply (Permutation_in _ (Permutation_sym (Hord _))). exact H1.
+  Qed.
+End Coherence.
+
 Section StoreFacts.
   Variable R : Type.
   Variable enc : R -> bytes.
